@@ -46,6 +46,8 @@ for src, names in missing.items():
     b = base.get(pkg, [])
     bnames = {(e["Kind"], e["Recv"], e["Name"]) for e in b}
     text = open(src).read()
+    # names this hook was already re-bound to in an earlier attempt of this build (they no longer count as "fresh")
+    rebound_new = set(re.findall(r"HOOK-REBOUND-NOTE: \w+ -> (\w+)", text)); rebound_old = set(re.findall(r"HOOK-REBOUND-NOTE: (\w+) -> ", text))
     for n in sorted(names):
         if n[:1].isupper(): continue            # exported API changed: not a harmless rename
         cands_b = [e for e in b if e["Name"] == n]
@@ -55,11 +57,22 @@ for src, names in missing.items():
             cs = [c for c in cur if c["Kind"] == e["Kind"] and c["Recv"] == e["Recv"] and c["Sig"] == e["Sig"]
                   and (c["Kind"], c["Recv"], c["Name"]) not in bnames and not c["Name"][:1].isupper()]
             if len(cs) == 1: new.add(cs[0]["Name"])
+            elif not cs and e["Kind"] in ("field", "var"):
+                # same struct (or package), type spelled differently (a type alias was introduced, a constant renamed with a
+                # re-spelled value …): re-bind by elimination when exactly ONE field of that struct disappeared and exactly
+                # ONE unexported field the baseline does not know appeared
+                gone = [x for x in b if x["Kind"] == e["Kind"] and x["Recv"] == e["Recv"]
+                        and not any(c["Kind"] == x["Kind"] and c["Recv"] == x["Recv"] and c["Name"] == x["Name"] for c in cur)
+                        and x["Name"] not in rebound_old]
+                fresh = [c for c in cur if c["Kind"] == e["Kind"] and c["Recv"] == e["Recv"]
+                         and (c["Kind"], c["Recv"], c["Name"]) not in bnames and not c["Name"][:1].isupper()
+                         and c["Name"] not in rebound_new]
+                if len(gone) == 1 and len(fresh) == 1 and e["Kind"] == "field": new.add(fresh[0]["Name"])
         if len(new) == 1:
             nn = new.pop()
             text2 = re.sub(r"(?<![\w])" + re.escape(n) + r"(?![\w])", nn, text)
             if text2 != text:
-                text = text2; done += 1
+                text = text2 + f"\n// HOOK-REBOUND-NOTE: {n} -> {nn}\n"; done += 1
                 print(f"HOOK-REBOUND: {pkg}: {n} -> {nn} (same receiver and signature; renamed in the source)")
     if text != open(src).read():
         out = H + "/overlay/patched/" + os.path.relpath(target, R)
